@@ -361,6 +361,9 @@ class Ctx:
         if ty is not None and not isinstance(ty, TAny):
             self.assume(ty.inv(t))
             self.assume_class(t, ty)
+            if isinstance(ty, TRef) and not isinstance(ty, TFn):
+                # a reference read from the heap denotes an object that exists already: never one allocated later
+                self.assume(Z.Val.id(t) < self.alloc0 + self.nalloc)
             if isinstance(ty, TSeq):
                 self.assume(z3.Select(self.field_array("$len"), Z.Val.id(t)) >= 0)
                 if getattr(self.E, "bounded", None) is not None:
